@@ -111,6 +111,19 @@ theorem clampCount_of_LeL {r bs : List Nat} (h : LeL r bs) :
       simp [ih h.2, this]
 
 
+theorem LeL.le_listMax {r bs : List Nat} (h : LeL r bs) {v : Nat} (hv : v ∈ r) : v ≤ listMax bs := by
+  induction r generalizing bs with
+  | nil => simp at hv
+  | cons x xs ih => cases bs with
+    | nil => simp [LeL] at h
+    | cons y ys =>
+      simp only [LeL] at h
+      simp only [List.mem_cons] at hv
+      simp only [listMax]
+      rcases hv with rfl | hv
+      · omega
+      · have := ih h.2 hv; omega
+
 /-! ### well-formed operands, and what it means for a value to fit a result container -/
 
 /-- the run-time value of an operand is consistent with what its type says -/
@@ -222,7 +235,11 @@ theorem RType.ofOperand_fits {a : KShape} (h : a.WF) : (RType.ofOperand a).Fits 
   · split
     · rfl
     · cases hbs : a.info.bounds with
-      | some bs => exact (hb bs hbs).1
+      | some bs =>
+        simp only
+        split
+        · exact ⟨(hb bs hbs).1.length_eq, fun v hv => LeL.le_listMax (hb bs hbs).1 hv⟩
+        · exact (hb bs hbs).1
       | none =>
         simp only
         split
@@ -587,7 +604,7 @@ theorem RType.ofOperand_constT {a : KShape} {v : Shape} (h : RType.ofOperand a =
     · simp only [h1, h2, Bool.false_eq_true, if_false] at h
       exfalso
       split at h
-      · cases h
+      · split at h <;> cases h
       · split at h
         · cases h
         · split at h <;> cases h
@@ -601,7 +618,7 @@ theorem RType.ofOperand_noneT {a : KShape} (h : RType.ofOperand a = .noneT) : a.
     split at h
     · cases h
     · split at h
-      · cases h
+      · split at h <;> cases h
       · split at h
         · cases h
         · split at h <;> cases h
